@@ -264,7 +264,10 @@ class Run:
                     if key in seen:
                         continue
                     seen.add(key)
-                    r2 = p.real(op, args2)
+                    try:
+                        r2 = p.real(op, args2)
+                    except Exception as e:  # the harness glue itself failed on the changed tree: a broken tie, not a crash
+                        r2 = "harness-error " + type(e).__name__ + ": " + str(e)[:120]
                     m2 = drv.ask("\t".join([op, *args2]))
                     verdict = None
                     try:
